@@ -15,7 +15,9 @@ tvars == <<l, nacc>>
 E == Tr[l]
 
 CallBad(c) == \E k \in 1..Len(c.outs) : c.errs[k] # "" \/ c.outs[k] # c.solo
-ConcReason == IF \E i \in 1..Len(E.calls) : CallBad(E.calls[i]) THEN "result differs from the solo run" ELSE "ok"
+ParamsChanged == {i \in 1..Len(E.pshared) : E.pshared[i] # E.pinit[i]}
+ConcReason == IF ParamsChanged # {} THEN "shared parameters object was modified"
+              ELSE IF \E i \in 1..Len(E.calls) : CallBad(E.calls[i]) THEN "result differs from the solo run" ELSE "ok"
 FirstBad == LET i == CHOOSE i \in 1..Len(E.calls) : CallBad(E.calls[i]) IN E.calls[i]
 
 Init == l = 1 /\ nacc = 0
@@ -23,6 +25,9 @@ Step ==
   /\ l <= Len(Tr) /\ l' = l + 1
   /\ IF E.ev = "conc"
      THEN IF ConcReason = "ok" THEN nacc' = nacc + 1
+          ELSE IF ParamsChanged # {}
+          THEN PrintT("@@REJECT|" \o ToString(E.scn) \o "|" \o ToString(E.k) \o "|C18/params-modified/codec " \o E.tsorder[CHOOSE i \in ParamsChanged : TRUE]
+                      \o "|a call changed the caller's shared parameters object") /\ UNCHANGED nacc
           ELSE PrintT("@@REJECT|" \o ToString(E.scn) \o "|" \o ToString(E.k) \o "|C18/solo-mismatch/codec " \o FirstBad.ts \o "/" \o FirstBad.op \o " " \o FirstBad.mode
                       \o "|" \o ToString(E.ncalls) \o " calls, GOMAXPROCS " \o ToString(E.gomaxprocs) \o " errs=" \o ToString(FirstBad.errs)) /\ UNCHANGED nacc
      ELSE IF E.ev = "race"
